@@ -13,8 +13,8 @@ PROPS = ["C17/Props.v"]
 DRIVER = "c17_driver.py"
 CLAUSE = {1: "self-not-returned", 2: "self-without-providing", 3: "found-iff-chain-exists", 4: "chain-invalid",
           5: "chain-not-minimal", 6: "single-step-specificity", 7: "storage-rule", 8: "outcome-shape"}
-APIS = ["adapt", "adapt_default", "supports", "inst0", "inst1", "inst2", "Supports", "AdaptsTo", "either0", "either1", "either2"]
-API_T = {"adapt": C("ApiAdapt"), "adapt_default": C("ApiAdaptDefault"), "supports": C("ApiSupports"),
+APIS = ["adapt", "adapt_module", "adapt_default", "supports", "inst0", "inst1", "inst2", "Supports", "AdaptsTo", "either0", "either1", "either2"]
+API_T = {"adapt": C("ApiAdapt"), "adapt_module": C("ApiAdaptModule"), "adapt_default": C("ApiAdaptDefault"), "supports": C("ApiSupports"),
          "inst0": C("TraitInstance", Nat(0)), "inst1": C("TraitInstance", Nat(1)), "inst2": C("TraitInstance", Nat(2)),
          "Supports": C("TraitSupports"), "AdaptsTo": C("TraitAdaptsTo"),
          "either0": C("TraitEither", Nat(0)), "either1": C("TraitEither", Nat(1)), "either2": C("TraitEither", Nat(2))}
@@ -74,7 +74,7 @@ def outcome_term(o, offers):
 
 
 def is_query(op):
-    return op[0] not in ("register", "offer")
+    return op[0] not in ("register", "offer", "reset_global", "set_global")
 
 
 def state_at(case, ob, step):
@@ -91,9 +91,9 @@ def state_at(case, ob, step):
 def to_term(case, ob):
     """(initial state, operations in order with the recorded outcome): the state is threaded inside Coq (Model.hstep)."""
     if not ob.get("ok"):
-        return (C("mkH", [], [], []), [])
+        return (C("mkH", [], [], [], True), [])
     st = C("mkH", [[bool(x) for x in row] for row in ob["sub"]], [[Nat(t) for t in row] for row in ob["mro"]],
-           [(Nat(f), Nat(t), fac_term(fc)) for f, t, fc in case["offers"]])
+           [(Nat(f), Nat(t), fac_term(fc)) for f, t, fc in case["offers"]], True)
     offers = list(case["offers"])
     h = []
     for op, o in zip(case["ops"], ob["obs"]):
@@ -107,9 +107,14 @@ def to_term(case, ob):
         elif op[0] == "offer":
             offers = offers + [op[1:4]]
             h.append((C("HOffer", (Nat(op[1]), Nat(op[2]), fac_term(op[3]))), None))
+        elif op[0] == "reset_global":
+            h.append((C("HResetGlobal"), None))
+        elif op[0] == "set_global":
+            h.append((C("HSetGlobal"), None))
         else:
             src, tgt, flag, api = op
-            h.append((C("HQuery", (Nat(src), Nat(tgt), bool(flag), API_T[api])), Some(outcome_term(o, offers))))
+            flag = bool(flag) and not case["types"][src].get("builtin")      # instances of builtin types carry no flag
+            h.append((C("HQuery", (Nat(src), Nat(tgt), flag, API_T[api])), Some(outcome_term(o, offers))))
     return (st, h)
 
 
@@ -198,6 +203,9 @@ def python_accepts(types, regs):
     ts = []
     try:
         for i, d in enumerate(types):
+            if d.get("builtin"):
+                ts.append({"dict": dict, "float": float, "list": list}[d["builtin"]])
+                continue
             ts.append((abc.ABCMeta if d.get("abc") else type)("G%d" % i, tuple(ts[j] for j in d["bases"]) or (object,), {}))
         for a, b in regs:
             ts[a].register(ts[b])
@@ -215,6 +223,11 @@ def gen_types(rnd, n):
             if rnd.random() < 0.15:
                 rnd.shuffle(bases)
             types.append({"bases": bases, "abc": rnd.random() < 0.3})
+        if rnd.random() < 0.15:
+            # one protocol IS a builtin value type (Supports(dict), Instance(float, adapt="yes")): no bases, not an ABC
+            types[rnd.randrange(n)] = {"bases": [], "abc": False, "builtin": rnd.choice(["dict", "float", "list"])}
+            for t in types:
+                t["bases"] = [b for b in t["bases"] if not types[b].get("builtin") or rnd.random() < 0.5]
         regs = []
         for i, t in enumerate(types):
             if t["abc"] and n > 1 and rnd.random() < 0.6:
@@ -306,7 +319,7 @@ def gen_case(rnd, ctx, max_types, max_offers, nq):
                 tgt = hub
         else:
             src, tgt = rnd.randrange(n), rnd.randrange(n)
-        api = rnd.choice(["adapt"] * 6 + ["adapt_default"] * 5 + ["supports"] * 2 + ["inst0", "inst1", "inst1", "inst2", "inst2",
+        api = rnd.choice(["adapt"] * 4 + ["adapt_module"] * 3 + ["adapt_default"] * 5 + ["supports"] * 2 + ["inst0", "inst1", "inst1", "inst2", "inst2",
                          "Supports", "Supports", "AdaptsTo", "AdaptsTo", "either0", "either1", "either2"])
         ops.append([src, tgt, rnd.randint(0, 1), api])
         ctx.count("entry:" + api)
@@ -321,6 +334,11 @@ def gen_case(rnd, ctx, max_types, max_offers, nq):
                 b = rnd.randrange(n)
                 if a != b:
                     ops.append(["register", a, b])
+            elif rnd.random() < 0.4:
+                ops.append(["reset_global"])        # somebody else resets the global manager ...
+                if rnd.random() < 0.5:
+                    ops.extend(rnd.sample(first, min(len(first), 3)))
+                    ops.append(["set_global"])      # ... and later the user's manager is installed again
             elif len(offers) + sum(1 for o in ops if o[0] == "offer") < max_offers:
                 ops.append(["offer", rnd.randrange(n), hub if rnd.random() < 0.5 else rnd.randrange(n), ["A"]])
             ops.extend(rnd.sample(first, min(len(first), 4)))
@@ -364,6 +382,21 @@ def corpus():
     cs.append(dict(types=[{"bases": []}, {"bases": []}, {"bases": []}], regs=[], offers=[[0, 1, ["A"]]],
                    ops=[[0, 2, 0, "adapt_default"], ["offer", 1, 2, ["A"]], [0, 2, 0, "adapt_default"], [0, 2, 0, "AdaptsTo"],
                         ["offer", 0, 2, ["A"]], [0, 2, 0, "adapt"]]))
+    # the global manager is reset by somebody else: the user's manager keeps its offers (manager.adapt still answers), the
+    # module-level route sees a new empty manager until the user's one is installed again
+    cs.append(dict(types=[{"bases": []}, {"bases": []}, {"bases": []}], regs=[], offers=[[0, 1, ["A"]], [1, 2, ["A"]]],
+                   ops=[[0, 2, 0, "adapt"], [0, 2, 0, "adapt_module"], ["reset_global"], [0, 2, 0, "adapt"], [0, 2, 0, "adapt_module"],
+                        [0, 2, 0, "adapt_default"], [0, 2, 0, "Supports"], [0, 2, 0, "supports"], ["set_global"], [0, 2, 0, "adapt_module"],
+                        [0, 2, 0, "Supports"], [0, 1, 0, "supports"], ["offer", 0, 2, ["A"]], [0, 2, 0, "adapt_module"]]))
+    # the documented public function without default, when no chain exists / when one exists / when the type provides
+    cs.append(dict(types=[{"bases": []}, {"bases": [0]}, {"bases": []}], regs=[], offers=[[0, 2, ["N"]]],
+                   ops=[[0, 2, 0, "adapt_module"], [1, 2, 0, "adapt_module"], [1, 0, 0, "adapt_module"], [2, 0, 0, "adapt_module"]]))
+    # the protocol is a builtin value type with an adapter registered to it
+    for b in ("dict", "float", "list"):
+        cs.append(dict(types=[{"bases": []}, {"bases": [], "builtin": b}, {"bases": [0]}, {"bases": []}], regs=[],
+                       offers=[[0, 1, ["A"]], [1, 3, ["A"]]],
+                       ops=[[s_, 1, 0, a] for s_ in (0, 2) for a in APIS] + [[1, 3, 0, "adapt"], [1, 3, 0, "Supports"],
+                                                                              [3, 1, 0, "Supports"], [3, 1, 0, "inst2"], [1, 1, 0, "Supports"]]))
     # two unrelated classes with the same __name__ in different modules, each with its own offer
     cs.append(dict(types=[{"bases": [], "name": "Doc"}, {"bases": [], "name": "Doc"}, {"bases": [], "name": "Out"},
                           {"bases": [], "name": "Out"}], regs=[],
